@@ -1,7 +1,7 @@
 (** C03: the two backends agree with each other (through the contract), and the
     Redis Create of before fix 100dccd does not refine the contract (defect D7). *)
 From Coq Require Import List ZArith NArith Arith Bool Lia.
-From GL Require Import spec.KV model.InmemKV model.RedisSrv model.RedisKV model.legacy.RedisKVLegacy
+From GL Require Import spec.KV model.InmemKV model.RedisSrv model.RedisKV model.legacy.RedisCreateLegacy
   proofs.C03_KV proofs.C06_Expiry proofs.C03_Inmem proofs.C03_Redis.
 Import ListNotations.
 
@@ -92,3 +92,7 @@ Proof.
   - destruct r as [[[k' v'] n'] e']. injection Hw as _ _ -> _. lia.
   - destruct r as [[[k' v'] n'] e']. injection Hw as _ _ -> _. lia.
 Qed.
+
+(** every state of a history from the empty storage is well formed and fresh *)
+Lemma reachable_wf_fresh : forall ops, wf (snd (run init ops)) /\ fresh (snd (run init ops)).
+Proof. intros ops. exact (run_wf_fresh ops init wf_init fresh_init). Qed.
